@@ -31,6 +31,7 @@ class BaseErr(BaseException):
 
 
 ERRCLS = [Err]
+MUTATE = [None]     # what the caller does to its input list right after the call: None, 'pop', 'append', 'clear'
 
 
 def mkerr(i):
@@ -89,7 +90,15 @@ def check_when(kind, n, rep, stats):
         complete(ars[i], i, outcome[i])
         done.append(i)
       vloop.run_ready()
-      comb = (AsyncResult.WhenAll if kind == 'all' else AsyncResult.WhenAny)(ars)
+      passed = list(ars)
+      comb = (AsyncResult.WhenAll if kind == 'all' else AsyncResult.WhenAny)(passed)
+      # the caller goes on using its list: what was passed at call time is what counts
+      if MUTATE[0] == 'pop' and passed:
+        passed.pop()
+      elif MUTATE[0] == 'append':
+        passed.append(AsyncResult())
+      elif MUTATE[0] == 'clear':
+        del passed[:]
       vloop.run_ready()
       steps = [None] + list(order)
       first_ok = None
@@ -101,6 +110,7 @@ def check_when(kind, n, rep, stats):
         stats['steps'] += 1
         got = snap(comb)
         case = {'combinator': 'When' + kind.capitalize(), 'n': n, 'outcomes': ['ok' if o else 'fail' for o in outcome], 'values': VALMODE[0],
+                'caller_then_mutates_its_list': MUTATE[0],
                 'already_complete': list(pre), 'completion_order': list(order), 'after_step': s}
         failed = [i for i in done if not outcome[i]]
         oks = [i for i in done if outcome[i]]
@@ -128,7 +138,7 @@ def check_when(kind, n, rep, stats):
           else:
             good = got == ('pending',)
             want = 'pending (no input has succeeded, not all have failed)'
-        stats['cases_keys'].add((kind, n, outcome, pre, order, s, got[0], VALMODE[0], ERRCLS[0].__name__))
+        stats['cases_keys'].add((kind, n, outcome, pre, order, s, got[0], VALMODE[0], ERRCLS[0].__name__, MUTATE[0]))
         if not good:
           clause = 'C17.when%s' % kind
           if kind == 'any' and oks and got[0] in ('fail', 'both') and s is not None:
@@ -350,6 +360,13 @@ def main(tier, seed):
       world.reset()
   check_repeated_inputs(4 if tier == 'quick' else 5, rep, stats)
   world.reset()
+  for mut in ('pop', 'append', 'clear'):
+    MUTATE[0] = mut
+    for kind in ('all', 'any'):
+      for n in range(1, (3 if tier == 'quick' else 4) + 1):
+        check_when(kind, n, rep, stats)
+        world.reset()
+  MUTATE[0] = None
   VALMODE[0] = 'falsy'
   for kind in ('all', 'any'):
     for n in range(1, (4 if tier == 'quick' else 5) + 1):
